@@ -1,7 +1,7 @@
 (* C06 — property theorems (statements only; proofs in Proofs*.v) *)
 From Coq Require Import NArith List Bool Arith.
 Import ListNotations.
-From LTV.C06 Require Import ParamsProbe Model Proofs ProofsInv ProofsRun ProofsOcc ProofsFull ProofsRetry ProofsKs ProofsKs2 ProofsKs3 ModelSend ProofsSend.
+From LTV.C06 Require Import ParamsProbe Model Proofs ProofsInv ProofsRun ProofsOcc ProofsFull ProofsRetry ProofsKs ProofsKs2 ProofsKs3 ModelSend ProofsSend ProofsDual.
 
 Theorem params_ok_now : params_ok = true.
 Proof. exact Proofs.params_ok_now. Qed.
@@ -214,3 +214,16 @@ Print Assumptions retry_policy_incoming.
 Theorem retry_rule_partial : forall p fp, In p all_policies -> In fp [0; 1] -> retry_cell p fp = true.
 Proof. exact Proofs.retry_rule_partial. Qed.
 Print Assumptions retry_rule_partial.
+
+(* "nothing else affected": two handshakes alive at the same time, their segments (and closes)
+   interleaved in ANY order, evolve exactly as the two independent runs - the handshake model shares
+   nothing between handshakes. The correspondence (case type D: two concurrent incoming peers,
+   interleaved flights and cuts) checks the implementation against this product, so shared mutable
+   state between handshakes in the code (a cached DH object, a shared buffer) shows up as a
+   disagreement and, for a protocol-following peer that is dropped, as a property failure. Together
+   with buffer_safe / keystream_aligned / retry_rule, which hold for every single run, every
+   per-handshake theorem transfers to concurrent handshakes. *)
+Theorem handshakes_independent : forall bfb l oa ob,
+  run2 bfb oa ob l = (run bfb oa (proj true l), run bfb ob (proj false l)).
+Proof. exact ProofsDual.handshakes_independent. Qed.
+Print Assumptions handshakes_independent.
